@@ -582,6 +582,21 @@ where
     }
 }
 
+#[cfg(all(petrichorit_des_verif, feature = "cqueue", not(feature = "miri")))]
+impl<A> Runtime<A>
+where
+    A: Application,
+{
+    /// Walks the calender queue of this runtime and checks its structural invariants.
+    ///
+    /// # Errors
+    ///
+    /// Returns a description of the first broken invariant.
+    pub fn verif_event_set_check(&self) -> Result<des_cqueue::verif::VerifSnapshot, String> {
+        self.future_event_set.verif_check()
+    }
+}
+
 cfg_net! {
     use crate::net::{gate::{GateRef, Connection},  HandleMessageEvent, message::Message, MessageExitingConnection, module::ModuleRef, NetEvents, Sim};
 
